@@ -164,6 +164,13 @@ pub fn eval(c: &Case) -> Eval {
     let mut branch_checked = false;
     let mut branch_samples = 0u64;
     if let Some(thr) = branch_threshold(&d) {
+        // exact: the generator words right at the boundary between the direct answer and the rejection branch (where
+        // c1 * u is within rounding of 1) must still give values in [0,1)
+        for off in -512i64..=512 {
+            let w = thr.wrapping_add(off as u64);
+            let (x, _) = forced_sample(&d, w, 5);
+            ensure!(x >= 0.0 && x < 1.0, "lambda = {:e}: with the first generator word {:#x} (within 512 of the branch boundary) the sample is {:e}, outside [0,1)", lambda, w, x);
+        }
         let nb = (c.n / 8).max(50_000);
         let runb = |seed: u64, n: u64| -> Result<f64, Fail> {
             let mut r = SmRng::new(seed);
